@@ -119,8 +119,12 @@ func runBufferScenario(sc *Scenario) *RunData {
 		if t-h >= bufCap {
 			probe("c08.full-at-quiescence")
 		}
-		// liveness once the burst is over: a single reader must get a batch
-		// within a bounded number of further hits
+		if h > t {
+			rd.violate("C08/ring-corrupt/head-beyond-tail", fmt.Sprintf("after the burst the ring's head (%d) is beyond its tail (%d): every later Add sees a full ring", h, t))
+			return
+		}
+		// liveness once the burst is over: a single reader must get a batch that
+		// delivers hits (an empty batch records nothing) within a bounded number of further hits
 		gotOne := false
 		for i := 0; i < 3*bufCap; i++ {
 			id := uint64(99)<<20 | uint64(i+1)
@@ -130,8 +134,10 @@ func runBufferScenario(sc *Scenario) *RunData {
 				record(99, batch)
 				holder = -1
 				b.Free()
-				gotOne = true
-				break
+				if len(batch) > 0 {
+					gotOne = true
+					break
+				}
 			}
 		}
 		if !gotOne {
@@ -151,7 +157,7 @@ func runBufferScenario(sc *Scenario) *RunData {
 func genC08Store(g *gen, tier string) *Scenario {
 	sc := &Scenario{Family: "store-stripe", Sim: g.sim(), Params: map[string]int64{}}
 	sc.Cache = g.cache(pick(g, "plain", "plain", "loading"))
-	sc.Cache.Stripes = 1
+	sc.Cache.Stripes = pick(g, 1, 1, 2, 4)
 	sc.Cache.MaxSize = int64(pick(g, 3, 4, 6, 8))
 	sc.Cache.WriteBuf = pick(g, 1, 4, 16)
 	sc.Stubs.ListenerSlowPct = pick(g, 0, 50, 100)
@@ -186,7 +192,7 @@ func genC08Store(g *gen, tier string) *Scenario {
 	// after the burst: make key 0 resident again, let everything drain, then
 	// 64 sequential hits on it
 	ep := []Op{{Kind: "waitidle"}, {Kind: "wait"}, {Kind: "set", Key: 0, Cost: 1}, {Kind: "wait"}, {Kind: "waitidle"}, {Kind: "snap", Label: "before"}}
-	for i := 0; i < 4*bufCap; i++ {
+	for i := 0; i < 4*bufCap*sc.Cache.Stripes; i++ {
 		ep = append(ep, Op{Kind: "get", Key: 0})
 	}
 	ep = append(ep, Op{Kind: "waitidle"}, Op{Kind: "snap", Label: "after"})
@@ -201,30 +207,56 @@ func checkC08(rd *RunData) []Violation {
 		return nil
 	}
 	before, after := rd.Snaps["before"], rd.Snaps["after"]
-	if before == nil || after == nil || len(before.Stripes) != 1 {
+	if before == nil || after == nil || len(before.Stripes) == 0 {
 		return nil
 	}
-	// every one of the 64 epilogue reads must have hit for the check to apply
+	var vs []Violation
+	ns := len(before.Stripes)
+	// at quiescence nobody holds a batch: every stripe's token must have been handed back
+	for i, st := range before.Stripes {
+		if !st.TokenFree {
+			vs = append(vs, Violation{"C08/wedged-stripe/store,token-not-handed-back", fmt.Sprintf("the cache is idle (no call in progress) but stripe %d of %d still has its batch out (head=%d tail=%d): no later hit on it can be delivered", i, ns, st.Head, st.Tail)})
+		}
+		if st.Head > st.Tail {
+			vs = append(vs, Violation{"C08/ring-corrupt/head-beyond-tail,store", fmt.Sprintf("stripe %d: head %d is beyond tail %d", i, st.Head, st.Tail)})
+		}
+	}
+	if len(vs) > 0 {
+		return vs
+	}
+	// every one of the epilogue reads must have hit for the delivery check to apply
 	hits := 0
 	for _, r := range rd.Recs {
 		if r.Client == -1 && r.Op.Kind == "get" && r.Ok {
 			hits++
 		}
 	}
-	if hits < 4*bufCap {
+	if hits < 4*bufCap*ns {
 		probe("c08.epilogue-key-not-resident")
 		return nil
 	}
-	var vs []Violation
-	wedged := before.Stripes[0].Tail-before.Stripes[0].Head >= bufCap
-	cls := "ring-not-full-before"
-	if wedged {
-		cls = "ring-full-token-free"
+	advanced := uint64(0)
+	for i := range after.Stripes {
+		b, a := before.Stripes[i], after.Stripes[i]
+		advanced += a.Head - b.Head
+		// a single sequential reader always finds the token free, so whoever fills a ring drains it:
+		// a ring that is (still) full now can no longer record hits
+		if a.Tail-a.Head >= bufCap {
+			cls := "ring-not-full-before"
+			if b.Tail-b.Head >= bufCap {
+				cls = "ring-full-token-free"
+			}
+			vs = append(vs, Violation{"C08/wedged-stripe/store," + cls, fmt.Sprintf("after the burst ended and the cache went idle (stripe %d of %d: head=%d tail=%d tokenFree=%v), %d further sequential hits left it full (head=%d tail=%d): hits on this stripe are no longer delivered to the policy", i, ns, b.Head, b.Tail, b.TokenFree, hits, a.Head, a.Tail)})
+		}
 	}
-	if after.Stripes[0].Head == before.Stripes[0].Head {
-		vs = append(vs, Violation{"C08/wedged-stripe/store," + cls, fmt.Sprintf("after the burst ended and the cache went idle (stripe head=%d tail=%d tokenFree=%v), %d further hits on a resident key were not delivered to the policy (head still %d)", before.Stripes[0].Head, before.Stripes[0].Tail, before.Stripes[0].TokenFree, hits, after.Stripes[0].Head)})
+	if len(vs) > 0 {
 		return vs
 	}
+	if advanced == 0 {
+		vs = append(vs, Violation{"C08/wedged-stripe/store,nothing-delivered", fmt.Sprintf("%d sequential hits over %d stripes after the burst delivered nothing to the policy", hits, ns)})
+		return vs
+	}
+	probe("c08.epilogue-delivered")
 	// delivered: the key's standing must have improved - it is now the most
 	// recently used entry of the window or of the protected region
 	ok := false
@@ -240,7 +272,7 @@ func checkC08(rd *RunData) []Violation {
 		}
 	}
 	if !ok {
-		vs = append(vs, Violation{"C08/hits-without-effect", fmt.Sprintf("%d hits on key 0 were delivered to the policy (stripe head advanced %d -> %d) but the key's standing did not improve: it is at %q", hits, before.Stripes[0].Head, after.Stripes[0].Head, where)})
+		vs = append(vs, Violation{"C08/hits-without-effect", fmt.Sprintf("%d hits on key 0 were delivered to the policy (stripe heads advanced by %d) but the key's standing did not improve: it is at %q", hits, advanced, where)})
 	}
 	return vs
 }
